@@ -10,16 +10,18 @@ structure DS where
   shape : Shape := .ts
   ncons : Nat := 1
   inner : Bool := false
+  innerRef : Bool := false
   cmp : Bool := false
   cfgBad : Bool := false
   st : State := {}
 
-def mkState (shape : Shape) (ncons : Nat) (inner cmp : Bool) : State :=
+def mkState (shape : Shape) (ncons : Nat) (inner innerRef cmp : Bool) : State :=
   init { shape := shape, nC := ncons + 1, nT := if cmp then 3 else 2,
          checked := fun c => c != 1 && c != ncons,
-         startSched := if inner && ncons ≥ 2 then [1] else [] }
+         startSched := if inner && ncons ≥ 2 then [1] else [],
+         resample := if innerRef && ncons ≥ 2 then [1] else [] }
 
-def DS.fresh (d : DS) : DS := { d with st := mkState d.shape d.ncons d.inner d.cmp }
+def DS.fresh (d : DS) : DS := { d with st := mkState d.shape d.ncons d.inner d.innerRef d.cmp }
 
 def insSorted (p : Int × String) : List (Int × String) → List (Int × String)
   | [] => [p]
@@ -163,8 +165,9 @@ def step (d : DS) (ws : List String) : DS × String :=
     | sh :: n :: stage :: more =>
       match shapeOf sh, more with
       | some shape, [] | some shape, ["ite"] | some shape, ["cmp"] =>
-        if (n == "1" || n == "2" || n == "3") && (stage == "direct" || stage == "pass" || stage == "inner") then
-          (({ shape := shape, ncons := n.toNat!, inner := stage == "inner", cmp := more == ["cmp"] } : DS).fresh, "ok")
+        if (n == "1" || n == "2" || n == "3") && (stage == "direct" || stage == "pass" || stage == "inner" || stage == "innerref") then
+          (({ shape := shape, ncons := n.toNat!, inner := stage == "inner" || stage == "innerref",
+              innerRef := stage == "innerref", cmp := more == ["cmp"] } : DS).fresh, "ok")
         else bad
       | _, _ => bad
     | _ => bad
